@@ -233,23 +233,8 @@ func run(c Case, st *stats) (*sim.Sim, error) {
 					// written at shutdown): one of the files is shorter than it should be, empty or missing.  The start
 					// then has to notice and rebuild the index from the unspent set - never run with a partial one.
 					if op.Arg%5 == 1 {
-						if files, _ := filepath.Glob(filepath.Join(common.GocoinHomeDir, wallet.BALANCES_SUBDIR, "*", "*")); len(files) > 0 {
-							sort.Strings(files)
-							fn := files[(op.Arg/5)%len(files)]
-							if fi, e := os.Stat(fn); e == nil {
-								sz := fi.Size()
-								cut := []int64{0, 1, sz / 2, sz - 1, sz - 36, sz / 3, -1}[(op.Arg/7)%7]
-								if cut < 0 || sz == 0 {
-									os.Remove(fn)
-									st.cutSaves++
-								} else if cut < sz {
-									os.Truncate(fn, cut)
-									st.cutSaves++
-									if os.Getenv("C17_DEBUG") != "" {
-										fmt.Fprintln(os.Stderr, "C17_DEBUG cut", fn, "from", sz, "to", cut)
-									}
-								}
-							}
+						if cutSavedIndex(op.Arg / 5) {
+							st.cutSaves++
 						}
 					}
 					wallet.VerifProcessRestart() // (the new process starts without any index in memory)
@@ -288,6 +273,85 @@ func run(c Case, st *stats) (*sim.Sim, error) {
 		wallet.Disable()
 	}
 	return ss, err
+}
+
+// cutSavedIndex shortens (or removes) one file of the saved index: at the start of a record, right after a record's
+// key, inside a record, after the first byte, before the last byte, completely.  Files that hold records are preferred.
+func cutSavedIndex(arg int) bool {
+	files, _ := filepath.Glob(filepath.Join(common.GocoinHomeDir, wallet.BALANCES_SUBDIR, "*", "*"))
+	if len(files) == 0 {
+		return false
+	}
+	sort.Strings(files)
+	var full []string
+	for _, fn := range files {
+		if fi, e := os.Stat(fn); e == nil && fi.Size() > 1 {
+			full = append(full, fn)
+		}
+	}
+	if len(full) > 0 && arg%4 != 0 {
+		files = full
+	}
+	arg /= 4
+	fn := files[arg%len(files)]
+	arg /= len(files)
+	data, e := os.ReadFile(fn)
+	if e != nil {
+		return false
+	}
+	sz := int64(len(data))
+	// record starts: CompactSize count, then per record an 8-byte key, two base-128 numbers (value, number of
+	// outputs) and 12 bytes per output
+	var starts []int64
+	if sz > 0 && data[0] < 0xfd {
+		off := int64(1)
+		varint := func() (v uint64, ok bool) {
+			for off < sz {
+				b := data[off]
+				off++
+				v = v<<7 | uint64(b&0x7f)
+				if b&0x80 == 0 {
+					return v, true
+				}
+				v++
+			}
+			return 0, false
+		}
+		for n := int(data[0]); n > 0 && off < sz; n-- {
+			starts = append(starts, off)
+			off += 8
+			if _, ok := varint(); !ok {
+				break
+			}
+			cnt, ok := varint()
+			if !ok {
+				break
+			}
+			off += 12 * int64(cnt)
+		}
+	}
+	cut := int64(-1)
+	switch k := arg % 8; {
+	case k <= 2 && len(starts) > 0: // at the start of a record (the first one: only the count is left)
+		cut = starts[(arg/8)%len(starts)]
+	case k == 3 && len(starts) > 0: // right after a record's key
+		cut = starts[(arg/8)%len(starts)] + 8
+	case k == 4 && sz > 2: // anywhere
+		cut = int64(arg/8) % sz
+	case k == 5:
+		cut = sz - 1
+	case k == 6:
+		cut = 0
+	}
+	if cut < 0 || cut >= sz {
+		os.Remove(fn)
+	} else {
+		os.Truncate(fn, cut)
+	}
+	if os.Getenv("C17_DEBUG") != "" {
+		fmt.Fprintln(os.Stderr, "C17_DEBUG cut", filepath.Base(fn), "from", sz, "to", cut, "record starts", starts)
+	}
+	return true
 }
 
 var profile = sim.Profile{
